@@ -36,7 +36,10 @@ OBLIGATIONS.append(Ob(name='C03.O3.free_all_cpu', harness=SEL, entry='h_free_all
 # futex-wait loops of the helper / of rcu_barrier (shared with C02; late import via engine/check.py)
 def _shared():
     from obligations import C02 as _c02
-    return [o for o in _c02.OBLIGATIONS if o.name in ('C02.O3.call_rcu_wait',)]
+    _r = [o for o in _c02.OBLIGATIONS if o.name in ('C02.O3.call_rcu_wait',)]
+    from obligations import C10 as _c10
+    _r += [o for o in _c10.OBLIGATIONS if o.name in ('C10.O1.enqueue', 'C10.O1.splice', 'C10.O1.iter')]
+    return _r
 META = {
     'level': 'other',
     'explanation': 'C03 quantifies over schedules of enqueuers, helper threads and grace periods. Contracts decide the per-function obligations: _call_rcu enqueues exactly once (FIFO, wake-up handshake); one helper iteration = splice all, one grace period, each spliced callback once in order with its own rcu_head, never a callback enqueued during that grace period; a freed helper hands its leftovers to the default helper once and in order. Batches and leftovers are bounded (<= 3); the unbounded queue contracts are C10.',
